@@ -815,6 +815,44 @@ static void dataView(long k, vh::Rng &r)
   vh::evaluated(vh::hash64(vh::hashStr(E<T>::name(), 6), stride * 1000 + n), true);
 }
 
+// ---- DataView over records: the element is a composite type and the stride is any multiple of its ALIGNMENT - not of
+// its size (12-byte vectors in 16-byte slots, 8-byte pairs inside 12-byte records, overlapping windows with a stride
+// below sizeof(T), stride 0). Element i is whatever T lies at byte offset i*stride of the raw block.
+struct V12
+{
+  float x, y, z;
+};
+struct P8
+{
+  int a, b;
+};
+template <typename T>
+static void dataViewRecords(long k, vh::Rng &r, const char *tname)
+{
+  size_t n      = 1 + r.below(24);
+  size_t stride = alignof(T) * r.below(9);  // 0, 4, ..., 32: below, equal to, above and between multiples of sizeof(T)
+  size_t lead   = r.below(3) * alignof(T);
+  size_t bytes  = lead + stride * (n - 1) + sizeof(T);
+  std::unique_ptr<unsigned char[]> raw(new unsigned char[bytes]);  // exact size
+  for (size_t i = 0; i < bytes; ++i)
+    raw[i] = (unsigned char)((i * 29 + (size_t)k * 7 + 3) & 0x7f);  // small values: valid, distinct float/int bit patterns
+  const unsigned char *base = raw.get() + lead;
+  std::string ctx = "#" + std::to_string(k) + " DataView<" + tname + "> sizeof=" + std::to_string(sizeof(T)) + " stride=" + std::to_string(stride) + " n=" + std::to_string(n);
+  DataView<T> a(base, stride), b;
+  b.reset(base, stride);
+  for (size_t i = 0; i < n; ++i) {
+    const T &x = a[i], &y = b[i];
+    if ((const unsigned char *)&x != base + i * stride || (const unsigned char *)&y != base + i * stride || memcmp(&x, base + i * stride, sizeof(T)) != 0) {
+      vh::violation(std::string("C11:DataView<") + tname + ">:element-address", "operator[](" + std::to_string(i) + ") is at byte offset " + std::to_string((long long)((const unsigned char *)&x - base)) + ", expected " + std::to_string(i * stride), ctx);
+      break;
+    }
+  }
+  vh::count("dataview_record_layouts");
+  if (stride % sizeof(T) != 0)
+    vh::count("dataview_strides_not_multiple_of_element_size");
+  vh::evaluated(vh::hash64(vh::hashStr(tname, 8), stride * 1000 + n), true);
+}
+
 int main(int argc, char **argv)
 {
   vh::init(argc, argv);
@@ -840,6 +878,8 @@ int main(int argc, char **argv)
           dataView<int>(k, r);
           dataView<double>(k, r);
           dataView<S16>(k, r);
+          dataViewRecords<V12>(k, r, "vec12");
+          dataViewRecords<P8>(k, r, "pair8");
           history<F16>(k, r);
           break;
         }
